@@ -1,0 +1,42 @@
+//go:build verif
+
+// Contracts for the native service (witness checks C18, accessors), read by /verif/gocv.
+package native
+
+//@ func (*NativeService).GetCacheDB
+//@   inline
+//@ func (*NativeService).GetInput
+//@   inline
+//@ func (*NativeService).GetTx
+//@   inline
+//@ func (*NativeService).GetHeight
+//@   inline
+//@ func (*NativeService).GetTime
+//@   inline
+//@ func (*NativeService).GetChainID
+//@   inline
+
+//@ func (*NativeService).CallingContext
+//@   property C18
+//@   -- the second-from-top context: the contract that called the running one
+//@   ensures len(this.contexts) < 2 ==> result == common.ADDRESS_EMPTY
+//@   ensures len(this.contexts) >= 2 ==> result == this.contexts[len(this.contexts)-2]
+
+//@ func (*NativeService).checkContractAddress
+//@   property C18
+//@   ensures result <==> (len(this.contexts) >= 2 && this.contexts[len(this.contexts)-2] != common.ADDRESS_EMPTY && this.contexts[len(this.contexts)-2] == address)
+
+//@ func (*NativeService).checkAccountAddress
+//@   property C18
+//@   requires this.tx != nil
+//@   ensures result <==> (sigAddrSetOK(ref(this.tx)) && sigAddrSet(ref(this.tx), address))
+//@   loop 1 invariant forall j int :: 0 <= j && j < it1 ==> addresses[j] != address
+
+//@ func (*NativeService).CheckWitness
+//@   property C18
+//@   requires this.tx != nil
+//@   ensures result <==> ((sigAddrSetOK(ref(this.tx)) && sigAddrSet(ref(this.tx), address)) || (len(this.contexts) >= 2 && this.contexts[len(this.contexts)-2] != common.ADDRESS_EMPTY && this.contexts[len(this.contexts)-2] == address))
+
+//@ func (*NativeService).AddNotify
+//@   trusted   -- appends to the notification list; touches no storage
+//@   modifies this.notifications
